@@ -348,7 +348,10 @@ class SubprocessTestCaseExecutor(TestCaseExecutor):
 
                 randomness.RNG.setstate(random_state)
 
-                self._module_provider = new_module_provider
+                # The module provider is deliberately not taken back from the subprocess:
+                # pickling replaces registered mutated module versions by the original
+                # module of the same name, so adopting the copy would silently drop them.
+                del new_module_provider
 
                 for result, reference_bindings, new_reference_bindings in zip(
                     results, context.references_bindings, new_references_bindings, strict=True
